@@ -63,6 +63,19 @@ theorem C17_numbers_same_integer (ft : List Char → Option (List Char)) (n : Li
       (∀ t, ft n = some t → numBack ft n = .number t) ∧ (ft n = none → numBack ft n = .null)) :=
   ⟨fun u h => numBack_u64 ft n u h, fun i h0 h => numBack_i64 ft n i h0 h, fun h0 h1 => numBack_f64 ft n h0 h1⟩
 
+/-- **Both directions composed**: a plain value serialized with the crate's own serializer and
+    deserialized again is the value with its 64-bit integer literals re-rendered and every number
+    passed through json-number's dispatch — nothing else changes. -/
+theorem C17_value_round_trip (ft : List Char → Option (List Char)) (v : JValue) (h : Plain v) :
+    ∃ w, toValue v = .ok w ∧ fromValue ft w = .ok (backValue ft (mapNumbers numNorm v)) :=
+  fromValue_toValue ft v h
+
+/-- `from_value::<Object>`: the entries in order, values deserialized as above. -/
+theorem C17_object_deserialize (ft : List Char → Option (List Char)) (es : List (List Char × JValue))
+    (h : DePlainM es) (hnd : (es.map (·.1)).Nodup) :
+    fromValueObject ft (.object es) = .ok (.object (backValueM ft es)) :=
+  fromValueObject_plain ft es h hnd
+
 /-- The hypothesis on the first key cannot be dropped here either: an object starting with the
     private number token is read as that number, or rejected (same known finding). -/
 theorem C17_magic_key_deserialize :
